@@ -236,6 +236,22 @@ Theorem C10_kernprof_view_every_function_once :
           exists tm, In (b_key b, tm) st /\ show_func (py_formatter unit (Some u)) E z (b_key b) tm = Some b).
 Proof. exact kernprof_view_every_function_once. Qed.
 
+(* `LineProfiler.print_stats(...)`: the report of the LineStats that get_stats() returns, scaled
+   with THAT object's unit; every key once, blocks made from the key's own timings with the
+   formatter of (statistics' unit, output unit), summary lines matching the blocks *)
+Theorem C10_print_stats_every_function_once :
+  forall (ls : linestats) (ou : option Q) (o : options) (E : env),
+    NoDup (map fst (ls_timings ls)) -> o_details o = true ->
+    let r := print_stats_report ls ou o E in
+    NoDup (map b_key (rp_blocks r))
+    /\ (forall k tm, In (k, tm) (ls_timings ls) ->
+          (In k (map b_key (rp_blocks r)) <-> (o_stripzeros o = false \/ total_hits tm <> 0)))
+    /\ (forall b, In b (rp_blocks r) ->
+          exists tm, In (b_key b, tm) (ls_timings ls)
+                     /\ show_func (py_formatter (ls_unit ls) ou) E (o_stripzeros o) (b_key b) tm = Some b)
+    /\ (o_summarize o = true -> map fst (rp_summary r) = map b_key (rp_blocks r)).
+Proof. exact print_stats_every_function_once. Qed.
+
 (* the hypotheses are satisfiable, and this is what the model prints for a two-function report *)
 Theorem C10_nonvacuous :
   NoDup (map fst ex_st)
